@@ -6,5 +6,7 @@ INVARIANT WalkChains
 INVARIANT PointUntouched
 INVARIANT VelocityBookkeeping
 PROPERTY PointNeverChanges
+INVARIANT RepresentationIrrelevant
 INVARIANT EmitWalk
+INVARIANT EmitHand
 INVARIANT EmitEdges
